@@ -10,6 +10,7 @@ tier = sys.argv[1] if len(sys.argv) > 1 else "quick"
 B = f"{V}/.build/c20"
 env = dict(os.environ, GOFLAGS="-mod=mod", GOPROXY="off", GOSUMDB="off", GOTOOLCHAIN="local")
 start = time.time()
+REPO = os.environ.get("VERIF_REPO", "/repo")
 
 def sh(cmd, cwd=None):
     return subprocess.run(cmd, cwd=cwd, env=env, stdout=subprocess.PIPE, stderr=subprocess.STDOUT, text=True)
@@ -27,10 +28,10 @@ r = sh(["go", "build", "-o", f"{V}/.build/connov", "."], cwd=f"{V}/tools/connov"
 if r.returncode:
     fail("connov build failed", r.stdout)
 shutil.rmtree(f"{B}/src", ignore_errors=True)
-r = sh([f"{V}/.build/connov", "-repo", "/repo", "-harness", f"{V}/mcconn", "-out", B])
+r = sh([f"{V}/.build/connov", "-repo", REPO, "-harness", f"{V}/mcconn", "-out", B])
 if r.returncode:
     fail("overlay generation failed", r.stdout)
-r = sh(["go", "test", "-c", "-vet=off", f"-modfile={B}/alt.mod", f"-overlay={B}/overlay.json", "-o", f"{B}/conn.test", "./cmd/mhub-minter-connector"], cwd="/repo/minter-connector")
+r = sh(["go", "test", "-c", "-vet=off", f"-modfile={B}/alt.mod", f"-overlay={B}/overlay.json", "-o", f"{B}/conn.test", "./cmd/mhub-minter-connector"], cwd=f"{REPO}/minter-connector")
 if r.returncode:
     fail("harness build failed (the connector / module under /repo does not compile with the harness)", r.stdout)
 
